@@ -120,6 +120,9 @@ def gen_source(rng, hazardous=True) -> Src:
                 s.lines.append(ind(depth) + k + " (1 2 'a b');")
             else:
                 v = native.dictio().NativeFormatter().format_value(gen.dom_scalar(rng))
+                if rng.random() < 0.1:
+                    # a value that holds :// (no comment marker: the look-behind for the colon), often with a comment behind it
+                    v = rng.choice(["'https://example.org/project'", "'ftp://files.example.org/pub'", "\"http://x.org/a b\""])
                 line = ind(depth) + k + "  " + v + ";"
                 if rng.random() < 0.3:
                     # a blank, a tab, or nothing between the statement and the comment (a 1;// note)
